@@ -13,6 +13,15 @@ func (g *G) returning() ([]Tok, []ast.Expression) {
 		return cat(g.kw("RETURNING"), sym("*")), []ast.Expression{&ast.Identifier{Name: "*"}}
 	}
 	ts, ns := g.args(1 + g.intn(2, "nret"))
+	if g.F.ReturningAlias && g.chance(30, "retalias") {
+		// RETURNING expr AS name
+		g.use("returning_alias")
+		a := g.pick(aliasPool, "retaliasname")
+		g.Names.Aliases[a.name] = true
+		i := len(ts) - 1
+		ts[i] = cat(ts[i], g.kw("AS"), sym(a.src))
+		ns[i] = &ast.AliasedExpression{Expr: ns[i], Alias: a.name}
+	}
 	return cat(g.kw("RETURNING"), commaJoin(ts)), ns
 }
 
